@@ -177,10 +177,18 @@ BIG = re.compile(rb"^\s*p\s+af\s+\+?0*(\d{6,})", re.M)
 class C13(Property):
     id = "C13"
     families = ["read"]
+    needs_bins = True
+
+    def extra(self, ctx):
+        # the property's second observation point: exit status of `crustabri check -f FILE -r FORMAT` on generated files
+        # (accepted by the reader model <=> exit status 0, nothing that looks like an answer printed)
+        import random
+        import props_cli
+        return props_cli.C05().check_command(ctx, random.Random(ctx["seed"] + 13), n=400 if ctx["tier"] == "quick" else 6000)
     rule = ("files generated from the two grammars with layout variation (comments, CR/LF, missing final newline, Unicode and ASCII blanks, signs, duplicate declarations), "
             "one ill-formedness class injected per ill-formed file (bad/missing header, index out of range, non-numeric, wrong arity, content after a blank line; "
             "undeclared argument, argument after attack, syntax error, a consistently used name with a non-ASCII letter, mark, numeral, connector or punctuation), and byte-/token-level mutations of those files (incl. invalid UTF-8, NUL, lone CR); "
-            "declared sizes capped at 20000; compared: ok/err, the framework dump, read_arg_from_str; non-trivial = file with at least one attack line")
+            "declared sizes capped at 20000; compared: ok/err, the framework dump, read_arg_from_str; the exit status of `crustabri check` on a sample of the same files; non-trivial = file with at least one attack line")
     assumptions = ["regex crate modelled by deterministic scanners; \\s/\\d tables regenerated from the vendored regex-syntax named in Cargo.lock",
                    "declared sizes above 20000 are excluded (the property excludes sizes that do not fit in memory)"]
 
